@@ -5,7 +5,7 @@ CLAIM = {
  'text': ('Lean 4 theorems about a model of LASRead.py (line generator, section dispatch, line_to_sect_line with its two '
           'field regexes as scanners, string_to_value typing, unwrapped and wrapped array section, null substitution) and '
           'a layout-parametric printer: parse_print (for every well-formed content and EVERY layout the reader returns '
-          'the content), layout_independent, wrap_unwrap_equal, bad_value_becomes_null, mask_exact, header_line_parse_print, '
+          'the content), layout_independent, wrap_unwrap_equal, bad_value_becomes_null, mask_exact, parse_no_final_newline, header_line_parse_print, '
           'data_line_tokens, unwrap_frames. The model is tied to the source on every run by a differential run against '
           'the real LASRead on texts printed by the proved Lean printer under random layouts, on mutated (malformed) '
           'texts and on the unit functions; the property oracle compares the real reader with the generated content.'),
@@ -302,6 +302,44 @@ def _case(content, layout):
     return {'op': 'content', 'content': content, 'layout': layout}
 
 
+def newline_variants(ctx, LR, G, count):
+    """Well-formed files whose END differs: no newline after the last line (last data row, last wrapped continuation line,
+    last header line of a header-only file), CR LF line ends, a last line that is only blanks.  Same content expected."""
+    rng = ctx.rng
+    batch = []
+    for _ in range(count):
+        c = G.gen_content(rng, max_curves=4, max_frames=4, allow_bad_x=False)
+        l = G.gen_layout(rng, c)
+        l['tail'] = [] if rng.random() < 0.8 else l['tail']
+        l['v']['lead'] = 0                                   # CR LF blank lines before the first head are not skipped: head at column 0
+        header_only = rng.random() < 0.25
+        t = G.print_header_only(c, l) if header_only else G.print_las(c, l)
+        k = rng.randrange(8)
+        crlf = t.replace('\n', '\r\n')
+        v = [t[:-1], t[:-1], crlf, crlf[:-2], crlf[:-1], t + rng.choice(['   ', '\t', ' \t ']), t[:-1] + rng.choice(['  ', '\t']), crlf + '  '][k]
+        kind = ['no_final_newline', 'no_final_newline', 'crlf', 'crlf_no_final_newline', 'crlf_ends_with_cr', 'last_line_blanks',
+                'no_final_newline_trailing_blanks', 'crlf_last_line_blanks'][k]
+        batch.append((c, v, header_only, kind))
+    reps = ctx.lean(['parse ' + (v.encode('ascii').hex() or '-') for _, v, _, _ in batch])
+    for (c, v, header_only, kind), r in zip(batch, reps):
+        res = impl_parse(LR, v)
+        ctx.corr('lasparse_file_end', {'op': 'text', 'text': v}, res[0], model_struct(r))
+        ctx.count('file_end_' + kind + ('_header_only' if header_only else ''))
+        if header_only:
+            want = G.expected(c, G.NULL_DEFAULT if G.declared_null(c) is None else G.declared_null(c))
+            want['array'] = None
+            oracle_typed(ctx, LR, v, want, {'op': 'typed_fields', 'text': v, 'want': want})
+        else:
+            oracle(ctx, LR, c, v, {'op': 'content_text', 'content': c, 'text': v}, res)
+
+
+def search(ctx):
+    """Extra oracle budget when a proof or a correspondence broke without a failing input: the file-end variants."""
+    from gen import las as G
+    LR = _impl()
+    newline_variants(ctx, LR, G, ctx.n(1500, 6000))
+
+
 def run(ctx):
     import numpy as np
     from gen import las as G
@@ -439,6 +477,9 @@ def run(ctx):
             rng.choice(hs)['mnem'] = rng.choice(['1', '2', '42', 'yes', '35e-1'])
         l = G.gen_layout(rng, c)
         oracle_numeric_mnemonic(ctx, LR, c, G.print_las(c, l), {'op': 'content_numeric', 'content': c, 'layout': l})
+
+    # ---- well-formed files ending without a newline / with CR LF / with a blank last line
+    newline_variants(ctx, LR, G, ctx.n(400, 3000))
 
     # ---- every typed field (value AND description) with integers of every magnitude, signs, leading zeros, floats, yes/no:
     #      written through placeholders, the expected result is the exact typed value (type tag and exact int / float.hex)
